@@ -236,7 +236,9 @@ class Module:
         L.append("    integer :: tmp_i")
         for p in self.procs:
             # one call line per procedure; cursor positions are computed from the rendered text
-            vals = [self_r.choice(["x%d" % i, "max(%d, 2)" % i, '"a,b"', "(/ %d, 2 /)" % i, "f2(g(1, 2), 3)"]) for i in range(len(p["args"]))]
+            vals = [self_r.choice(["x%d" % i, "max(%d, 2)" % i, '"a,b"', "(/ %d, 2 /)" % i, "f2(g(1, 2), 3)", "x%d /= x0" % i,
+                                   # a comparison whose left side is spelled like another dummy argument of the procedure
+                                   "%s == %d" % (p["args"][(i + 1) % len(p["args"])].name, i)]) for i in range(len(p["args"]))]
             self.calls.append((p, len(L), "    call %s(" % p["name"] if not p["fun"] else "    tmp_i = %s(" % p["name"], vals))
             L.append(("    call %s(" % p["name"] if not p["fun"] else "    tmp_i = %s(" % p["name"]) + ", ".join(vals) + ")")
             kw = [a for a in p["args"]]
